@@ -23,26 +23,26 @@ var c10Scope = map[string]bool{"transport": true, "certs": true, "keys": true, "
 // assertion table: abort sites reachable from the datagram handlers, each with
 // the invariant that keeps peer input from triggering it (DESIGN A.5).
 var c10Assertions = map[string]string{
-	"cyclist.(*Cyclist).Decrypt|panic|1":  "un-keyed-mode assertion: in every role the duplex is keyed (RekeyFromSqueeze -> Initialize) before the first Decrypt of the message sequence; which mode the duplex is in does not depend on datagram contents",
-	"cyclist.(*Cyclist).Encrypt|panic|1":  "un-keyed-mode assertion: as for Decrypt",
-	"cyclist.(*Cyclist).Ratchet|panic|1":  "un-keyed-mode assertion: Ratchet is only called by deriveFinalKeys at the end of a completed handshake, after RekeyFromSqueeze",
-	"keys.(*KEMKeyPair).Decapsulate|panic|1": "the ciphertext length is checked against the scheme's size on the line above; circl's ML-KEM decapsulation fails only on a size/type mismatch",
-	"keys.(*X25519KeyPair).Generate|panic|1": "crypto/rand failure: environment, not peer input",
-	"keys.Encapsulate|panic|1":            "the public key was produced by ParseKEMPublicKeyFromBytes (right scheme) and the seed has the scheme's size; circl fails only on size/type mismatch",
-	"kravatte.(*sanse).Seal|panic|1":      "wrap fails only for inconsistent bit lengths, which Seal computes itself from the slice lengths (8*len); not input-dependent",
-	"transport.(*HandshakeState).writeCookie|logrus.Panicf|1": "AEAD overhead is the constant TagSize, the sealed secret has the constant PQSharedSecretLen: len(enc) is a constant",
+	"cyclist.(*Cyclist).Decrypt|panic|1":                           "un-keyed-mode assertion: in every role the duplex is keyed (RekeyFromSqueeze -> Initialize) before the first Decrypt of the message sequence; which mode the duplex is in does not depend on datagram contents",
+	"cyclist.(*Cyclist).Encrypt|panic|1":                           "un-keyed-mode assertion: as for Decrypt",
+	"cyclist.(*Cyclist).Ratchet|panic|1":                           "un-keyed-mode assertion: Ratchet is only called by deriveFinalKeys at the end of a completed handshake, after RekeyFromSqueeze",
+	"keys.(*KEMKeyPair).Decapsulate|panic|1":                       "the ciphertext length is checked against the scheme's size on the line above; circl's ML-KEM decapsulation fails only on a size/type mismatch",
+	"keys.(*X25519KeyPair).Generate|panic|1":                       "crypto/rand failure: environment, not peer input",
+	"keys.Encapsulate|panic|1":                                     "the public key was produced by ParseKEMPublicKeyFromBytes (right scheme) and the seed has the scheme's size; circl fails only on size/type mismatch",
+	"kravatte.(*sanse).Seal|panic|1":                               "wrap fails only for inconsistent bit lengths, which Seal computes itself from the slice lengths (8*len); not input-dependent",
+	"transport.(*HandshakeState).writeCookie|logrus.Panicf|1":      "AEAD overhead is the constant TagSize, the sealed secret has the constant PQSharedSecretLen: len(enc) is a constant",
 	"transport.(*Server).createSessionFromHandshakeLocked|panic|1": "100 consecutive collisions in the random 32-bit session-id space: not reachable by choice of datagram contents",
 	"transport.(*Server).createSessionFromHandshakeLocked|panic|2": "crypto/rand failure: environment, not peer input",
-	"transport.(*SessionState).readPacketLocked|logrus.Panicf|1": "len(b) is len(pkt) - HeaderLen - SessionIDLen - CounterLen - ciphertextLen = 0 by the definition of PlaintextLen; an identity, given the length guard that C10.R1 requires",
-	"transport.(*SessionState).readPacketLocked|logrus.Panicf|2": "cipher.AEAD contract: a successful Open returns len(ciphertext)-TagSize bytes",
-	"transport.(*SessionState).sealPacketLocked|logrus.Panicf|1": "cipher.AEAD contract: Seal appends len(plaintext)+TagSize bytes",
+	"transport.(*SessionState).readPacketLocked|logrus.Panicf|1":   "len(b) is len(pkt) - HeaderLen - SessionIDLen - CounterLen - ciphertextLen = 0 by the definition of PlaintextLen; an identity, given the length guard that C10.R1 requires",
+	"transport.(*SessionState).readPacketLocked|logrus.Panicf|2":   "cipher.AEAD contract: a successful Open returns len(ciphertext)-TagSize bytes",
+	"transport.(*SessionState).sealPacketLocked|logrus.Panicf|1":   "cipher.AEAD contract: Seal appends len(plaintext)+TagSize bytes",
 }
 
 var c11Scope = map[string]bool{"tubes": true, "common": true, "authgrants": true, "codex": true, "userauth": true, "portforwarding": true, "certs": true, "keys": true}
 
 var c11Assertions = map[string]string{
-	"tubes.(*Muxer).addTube|type-assert|1":            "guarded by t.IsReliable(): only *Reliable returns true (sibling implementations checked: Reliable.IsReliable is constant true, Unreliable's constant false)",
-	"tubes.(*Muxer).addTube|type-assert|2":            "guarded by !t.IsReliable(): only *Unreliable returns false",
+	"tubes.(*Muxer).addTube|type-assert|1":              "guarded by t.IsReliable(): only *Reliable returns true (sibling implementations checked: Reliable.IsReliable is constant true, Unreliable's constant false)",
+	"tubes.(*Muxer).addTube|type-assert|2":              "guarded by !t.IsReliable(): only *Unreliable returns false",
 	"tubes.(*receiver).processIntoBuffer|type-assert|1": "the heap r.fragments only ever receives *pqItem (single heap.Push site in receiver.receive)",
 }
 
